@@ -135,8 +135,14 @@ theorem GenSched.step {S : Static} (hS : S.Valid) {orc : Oracle} {σ₀ : SimSt}
     have hWc : alookup ((simWake st' L.name d.comp callAt).sched L.name).wake d.comp =
         (callAt.orElse (fun _ => alookup (st0.sched L.name).wake d.comp)) := by
       cases hca : callAt with
-      | none => rw [← hca, hWn hca, hW0]; rfl
-      | some w => rw [← hca, hWs w hca, if_pos rfl]; rfl
+      | none =>
+        have := hWn hca d.comp
+        rw [hca] at this
+        rw [this, hW0]; rfl
+      | some w =>
+        have := hWs w hca d.comp
+        rw [hca] at this
+        rw [this, if_pos rfl]; rfl
     have hpersist : ¬ Root d.comp → (alookup (σ₀.sched L.name).wake d.comp).isSome = true →
         (alookup ((simWake st' L.name d.comp callAt).sched L.name).wake d.comp).isSome = true := by
       intro hnr' hsome
@@ -239,7 +245,7 @@ theorem GenSched.step {S : Static} (hS : S.Valid) {orc : Oracle} {σ₀ : SimSt}
           obtain ⟨hlvl, hbel, hsame⟩ := hpost
           rw [SimSt.sched_upsert, if_pos rfl] at hsame
           simp only [] at hsame
-          have hint : (st'.sched c).interrupts.isEmpty = true := by rw [hsame.2]; rfl
+          have hint : (st2.sched c).interrupts.isEmpty = true := by rw [hsame.2]; rfl
           rw [hint] at hcall
           simp only [if_true] at hcall
           exact
@@ -247,7 +253,7 @@ theorem GenSched.step {S : Static} (hS : S.Valid) {orc : Oracle} {σ₀ : SimSt}
               sys := by
                 intro _
                 rw [hWc, hsch c (Static.Own.refl S c), ← hcall]
-                cases hca : (firstWakeups (st'.sched c).wake).2 with
+                cases hca : (firstWakeups (st2.sched c).wake).2 with
                 | some w => rfl
                 | none =>
                   simp only [Option.orElse_none]
